@@ -137,7 +137,9 @@ def blind_unpack(data: bytes):
         return unforge_signature(data)
 
     if len(data) > 0 and data.startswith(b'\x05'):
-        with suppress(ValueError, AssertionError):
+        # bytes that merely start with 0x05 are not PACKed data: unforge_micheline also fails with
+        # IndexError (truncated input) and KeyError (unknown primitive tag)
+        with suppress(ValueError, AssertionError, IndexError, KeyError):
             res = unforge_micheline(data[1:])
             return micheline_value_to_python_object(res)
 
